@@ -420,15 +420,38 @@ impl QueryRouter {
     }
 
     /// Determines if a query is a mutation or not.
+    ///
+    /// Looks at the whole query tree: a data-modifying statement in a CTE, a row lock
+    /// (`FOR UPDATE`/`FOR SHARE`) in a subquery or a `SELECT ... INTO` are all writes
+    /// and cannot be executed on a replica.
     fn is_mutation_query(q: &sqlparser::ast::Query) -> bool {
+        use core::ops::ControlFlow;
         use sqlparser::ast::*;
 
-        match q.body.as_ref() {
-            SetExpr::Insert(_) => true,
-            SetExpr::Update(_) => true,
-            SetExpr::Query(q) => Self::is_mutation_query(q),
-            _ => false,
+        struct MutationVisitor;
+
+        impl Visitor for MutationVisitor {
+            type Break = ();
+
+            fn pre_visit_query(&mut self, q: &Query) -> ControlFlow<Self::Break> {
+                if !q.locks.is_empty() {
+                    return ControlFlow::Break(());
+                }
+
+                match q.body.as_ref() {
+                    SetExpr::Insert(_) | SetExpr::Update(_) => ControlFlow::Break(()),
+                    SetExpr::Select(select) if select.into.is_some() => ControlFlow::Break(()),
+                    _ => ControlFlow::Continue(()),
+                }
+            }
+
+            fn pre_visit_statement(&mut self, _statement: &Statement) -> ControlFlow<Self::Break> {
+                // A statement nested in a query (e.g. `WITH x AS (DELETE ...)`) is a write.
+                ControlFlow::Break(())
+            }
         }
+
+        q.visit(&mut MutationVisitor).is_break()
     }
 
     fn database_activity_cache(&self) -> Cache<String, DatabaseActivityState> {
@@ -541,6 +564,8 @@ impl QueryRouter {
                     let has_mutation = Self::is_mutation_query(query);
 
                     if has_locks || has_mutation {
+                        // Later plain reads in the same message must not undo this.
+                        visited_write_statement = true;
                         self.active_role = Some(Role::Primary);
                     } else if !visited_write_statement {
                         // If we already visited a write statement, we should be going to the primary.
